@@ -344,6 +344,30 @@ def _asgi_get(app, path, query_string, headers):
     return out["status"], (out["headers"].get("content-type") or "").split(";")[0].strip()
 
 
+QUOTED_HEADERS = [
+    ('text/html;q=0.2, application/xml;q=0.3, text/csv;profile="http://example.org/p?cols=1,2";q=0.1', SUPPORTED[1]),
+    ('application/json;q=0.9, text/csv;x=",";q=0.5', SUPPORTED[0]),
+    ('application/json;x="a;q=0.1";q=0.9, text/csv;q=0.5', SUPPORTED[0]),
+]
+
+
+def check_quoted_parameters():
+    """RFC 7231 allows quoted-string parameter values; a ',' or ';' inside the quotes separates nothing.  handle_header splits
+    the header text at every ',' and ';' - a listed finding (known_findings.json) with its own unit and signature."""
+    from curies.mapping_service.utils import handle_header
+
+    fails = []
+    for header, want in QUOTED_HEADERS:
+        try:
+            got = handle_header(header)
+        except Exception as e:  # noqa
+            got = f"raised {type(e).__name__}"
+        if got != want:
+            fails.append(("accept/quoted-parameter-value-with-separator/split-inside-quotes", f"Accept: {header!r} -> {got!r}, expected {want!r}"))
+            break
+    return fails
+
+
 def check_no_accept_header():
     """A request without any Accept header gets the default (SPARQL XML) from both frameworks."""
     import asyncio
@@ -499,6 +523,7 @@ def units(tier, seed):
             us.append({"kind": "accept4", "first": i})
     us.append({"kind": "accept-web"})
     us.append({"kind": "accept-dup"})
+    us.append({"kind": "accept-quoted"})
     us.append({"kind": "accept-misc"})
     return us
 
@@ -600,6 +625,10 @@ def run_unit(unit, ctx):
                 ctx.count("transitions")
                 for sig, msg in fails[:1]:
                     ctx.violation("C18/" + sig, msg, {"kind": "accept-web", "header": header})
+    elif k == "accept-quoted":
+        ctx.count("headers", len(QUOTED_HEADERS))
+        for sig, msg in check_quoted_parameters():
+            ctx.violation("C18/" + sig, msg, {"kind": "accept-quoted"})
     elif k == "accept-dup":
         # a media type may be listed more than once (two joined field lines, a synonym next to its canonical name): its weight
         # is the highest one given
@@ -647,6 +676,8 @@ def replay(case):
     elif k == "kwargs":
         _SERVICES.pop(case["conv"], None)
         f = check_query_kwargs(case["conv"])
+    elif k == "accept-quoted":
+        f = check_quoted_parameters()
     elif k == "accept-dup":
         f, _ = check_header(tuple(tuple(e) for e in case["elements"]), tuple(case["ows"]))
         f = [(s_.replace("accept/", "accept/repeated-media-type/"), m_) for s_, m_ in f]
